@@ -255,15 +255,13 @@ func c04Matrix(r *Run) {
 	origin := NewOrigin()
 	defer origin.Close()
 	dir := scratchDir("c04m")
-	var trustedFiles sync.Map
-	trustedFile := func(id string) string {
-		if p, ok := trustedFiles.Load(id); ok {
-			return p.(string)
-		}
-		p := writeFile(dir, "t-"+id+".pem", certPEM(c04Certs[id].Cert))
-		trustedFiles.Store(id, p)
-		return p
+	// written once, before the workers start: two workers writing the same file while a third one's Provision read it gave
+	// "no CERTIFICATE pem block" once
+	trustedFiles := map[string]string{}
+	for id := range c04Certs {
+		trustedFiles[id] = writeFile(dir, "t-"+id+".pem", certPEM(c04Certs[id].Cert))
 	}
+	trustedFile := func(id string) string { return trustedFiles[id] }
 	parallel(len(cases), 16, func(i int) {
 		c := cases[i]
 		signer := c04Certs[c.Signer]
